@@ -111,7 +111,11 @@ func c14ChurnOnce(seed int64, tname string, workers, per int) *c14ChurnRun {
 		run.Exchanges++
 		switch {
 		case err == nil:
-		case rec.Attempts >= 2:
+		case rec.Attempts >= 2 || m != nil:
+			// retried and still failed - or a reply was obtained (m != nil) and an error is reported all the same
+			if m != nil {
+				rec.Err = "a reply was returned together with this error: " + rec.Err
+			}
 			run.Failed = append(run.Failed, rec)
 		default:
 			// one attempt, no retry: the transport regarded the connection as freshly dialled for this
